@@ -1,0 +1,23 @@
+//go:build !verif
+
+package bluemonday
+
+import (
+	"io"
+
+	"golang.org/x/net/html"
+)
+
+// Verification hooks (see verif_on.go). With the "verif" build tag off they
+// are no-ops.
+
+func verifWriter(r io.Reader, w stringWriterWriter) stringWriterWriter { return w }
+
+func verifTok(r io.Reader, t *html.Token, skip bool, cnt int64, skipClosing bool, stack []string, mrst string) {
+}
+
+func verifEnd(r io.Reader, skip bool, cnt int64, skipClosing bool, stack []string, mrst string) {}
+
+func verifAttrsIn(r io.Reader, el string, attrs []html.Attribute) {}
+
+func verifAttrsOut(r io.Reader, attrs []html.Attribute) {}
